@@ -279,7 +279,7 @@ func (c *Ctx) footprintEntries(v *Val, qvars []Term, guard Term, src string) []M
 		}
 		return out
 	}
-	if n, _ := structOf(v.Typ); n != nil {
+	if n, st := structOf(v.Typ); n != nil && st != nil {
 		return expand(n, guard)
 	}
 	if u, ok := v.Typ.Underlying().(*types.Interface); ok {
@@ -497,8 +497,26 @@ func (c *Ctx) callContract(pi *PkgInfo, fo *types.Func, ct *Contract, recv *Val,
 	cf.OldHeap = c.St.cloneHeap()
 	cf.OldTop = c.St.Top
 	cf.OldEpoch = c.St.Epoch
-	entries := c.evalModEntries(ct.Modifies)
-	c.havocCall(entries)
+	// a function literal passed for a parameter with a callback contract: loop-like treatment
+	litHandled := false
+	for name, cb := range ct.Callbacks {
+		for i := 0; i < sig.Params().Len(); i++ {
+			if sig.Params().At(i).Name() == name && cargs[i] != nil && cargs[i].K == VFunc && cargs[i].Fn != nil {
+				if lit, ok := cargs[i].Fn.Lit.(*ast.FuncLit); ok && lit != nil {
+					c.callWithLiteral(cf, callerFr, ct, cb, cargs[i], lit, x, pos)
+					litHandled = true
+				}
+			}
+		}
+	}
+	if !litHandled {
+		if len(ct.Callbacks) > 0 {
+			c.Fr = callerFr
+			c.refuse("call of %s passes a non-literal function for a callback parameter", ct.Name)
+		}
+		entries := c.evalModEntries(ct.Modifies)
+		c.havocCall(entries)
+	}
 	// results
 	n := sig.Results().Len()
 	cf.Results = make([]*Val, n)
@@ -758,4 +776,161 @@ func (c *Ctx) evalSpecMaybe(e SExpr) (v *Val) {
 		}
 	}()
 	return c.evalSpec(e)
+}
+
+// callWithLiteral: the callee calls the literal an unknown number of times; the caller supplies an invariant
+// (`foreach N invariant`) over its own state and the callee's ghost state.
+func (c *Ctx) callWithLiteral(cf, callerFr *Frame, ct *Contract, cb *CallbackSpec, fv *Val, lit *ast.FuncLit, x *ast.CallExpr, pos token.Pos) {
+	root := callerFr
+	for root.Parent != nil {
+		root = root.Parent
+	}
+	ord := c.feOrd[x]
+	var ls *LoopSpec
+	if root.Contract != nil {
+		ls = root.Contract.Foreach[ord]
+	}
+	if ls == nil || len(ls.Invariants) == 0 {
+		c.Fr = callerFr
+		c.curPos = pos
+		c.refuse("call #%d with a function literal has no `foreach %d invariant`", ord, ord)
+	}
+	// callee ghost state
+	for _, g := range ct.GhostVars {
+		if g.Init == nil {
+			c.refuse("ghost variable %s of %s needs an initial value", g.Name, ct.Name)
+		}
+		cf.Ghost[g.Name] = c.evalSpec(g.Init)
+	}
+	saved := map[string]*Val{}
+	expose := func() {
+		for _, g := range ct.GhostVars {
+			root.Ghost[g.Name] = cf.Ghost[g.Name]
+		}
+	}
+	for _, g := range ct.GhostVars {
+		saved[g.Name] = root.Ghost[g.Name]
+	}
+	defer func() {
+		for n, v := range saved {
+			if v == nil {
+				delete(root.Ghost, n)
+			} else {
+				root.Ghost[n] = v
+			}
+		}
+	}()
+	expose()
+	inCaller := func(f func()) {
+		sv := c.Fr
+		c.Fr = callerFr
+		c.curPos = pos
+		f()
+		c.Fr = sv
+	}
+	inCaller(func() { c.checkInvariants(ls, ord, "foreach-init") })
+	// havoc what the literal may change
+	var keep []ModEntry
+	for _, e := range cb.Preserves {
+		keep = append(keep, c.evalModEntry(e, nil, True)...)
+	}
+	inCaller(func() {
+		assigned := c.assignedIn(lit.Body)
+		for o := range assigned {
+			if _, ok := c.boxedCell(o); ok {
+				continue
+			}
+			if cur, ok := c.Fr.lookupVar(o); ok && cur.K != VFunc {
+				c.Fr.setVar(o, c.freshVal(o.Name(), o.Type(), c.Fr.Ints, c.Fr.Floats))
+			}
+		}
+	})
+	c.havocEverythingExcept(keep, nil, Term{})
+	for _, g := range ct.GhostVars {
+		v, ts := c.bindVar(SBinder{g.Name, g.Type}, "h")
+		for _, t := range ts {
+			c.declare(t.S, t.Sort)
+		}
+		cf.Ghost[g.Name] = v
+	}
+	expose()
+	inCaller(func() { c.assumeInvariants(ls) })
+	if c.choose(2) == 0 {
+		// one more call of the literal
+		sig := fv.Fn.Sig
+		env := &specEnv{vars: map[string]*Val{}, up: c.bound}
+		var args []*Val
+		for i := 0; i < sig.Params().Len(); i++ {
+			pn := sig.Params().At(i).Name()
+			if i < len(cb.ParamNames) {
+				pn = cb.ParamNames[i]
+			}
+			var a *Val
+			inCaller(func() { a = c.freshVal("cb$"+pn, sig.Params().At(i).Type(), c.Fr.Ints, c.Fr.Floats) })
+			args = append(args, a)
+			if pn != "" {
+				env.vars[pn] = c.modeConvFrom(callerFr, a, sig.Params().At(i).Type(), callerFr.Ints, callerFr.Floats, cf.Ints, cf.Floats)
+			}
+		}
+		savedBound := c.bound
+		c.bound = env
+		for _, r := range cb.Requires {
+			c.assume(c.evalSpecBool(r.E)) // the callee's promise about the arguments it passes
+		}
+		c.bound = savedBound
+		before := c.St.cloneHeap()
+		var res *Val
+		inCaller(func() {
+			res = c.inlineCall(fv.Fn.Env.Pkg, nil, lit.Type, nil, lit.Body, nil, nil, args, fv.Fn.Env)
+		})
+		// the literal must leave the preserved footprint alone
+		for _, e := range keep {
+			for _, h := range e.heaps {
+				cur := c.heapArr(h.name, h.sort)
+				prev := c.heapArrIn(before, h.name, h.sort)
+				if cur.S == prev.S {
+					continue
+				}
+				goal := Implies(e.guard, StructEq(Select(cur, e.id), Select(prev, e.id)))
+				if len(e.qvars) > 0 {
+					goal = Forall(e.qvars, goal)
+				}
+				inCaller(func() {
+					c.assert(fmt.Sprintf("callback-preserves(%s#%d)", ct.Name, ord), h.name, goal, "the function literal must not modify "+e.src, nil)
+				})
+			}
+		}
+		env2 := &specEnv{vars: map[string]*Val{}, up: env}
+		var results []*Val
+		if res != nil && res.K == VTuple {
+			results = res.Elems
+		} else if res != nil {
+			results = []*Val{res}
+		}
+		for i, r := range results {
+			rn := ""
+			if i < sig.Results().Len() {
+				rn = sig.Results().At(i).Name()
+			}
+			if i < len(cb.ResultNames) {
+				rn = cb.ResultNames[i]
+			}
+			if rn != "" {
+				env2.vars[rn] = r
+			}
+		}
+		c.bound = env2
+		newGhost := map[string]*Val{}
+		for _, g := range cb.GhostUpdates {
+			newGhost[g.Name] = c.evalSpec(g.E)
+		}
+		for n, v := range newGhost {
+			cf.Ghost[n] = v
+		}
+		c.bound = savedBound
+		expose()
+		inCaller(func() { c.checkInvariants(ls, ord, "foreach-keep") })
+		panic(pathEnd{"foreach body end"})
+	}
+	// the callee returns: its postconditions hold of the (invariant-constrained) state
 }
